@@ -246,6 +246,10 @@ class Gen:
             self.tags.add('like')
             neg = 'NOT ' if self.chance(1, 3) else ''
             return f"({self.with_col(self.text_expr(scope, 0), scope, 'text')} {neg}LIKE '{self.pick(['x%', '%', 'y', '_'])}')"
+        if kind == 'isnull' and self.cols(scope, 'int') and self.chance(1, 4):
+            # truth tests: NULL passes IS NOT TRUE / IS NOT FALSE, and any non-zero number IS TRUE
+            self.tags.add('istruth')
+            return f'({self.pick(self.cols(scope, "int"))} IS {"NOT " if self.chance(1, 2) else ""}{self.pick(["TRUE", "FALSE"])})'
         if kind == 'isnull':
             self.tags.add('isnull')
             if self.chance(2, 3) or not self.cols(scope, 'text'):
